@@ -145,6 +145,21 @@ Theorem C08_document_returns_no_conflict : forall ft ops d dd nd,
 Proof. exact reachable_doc_unified_no_conflict. Qed.
 Print Assumptions C08_document_returns_no_conflict.
 
+Theorem C08_document_returns_no_conflict_any_attribute : forall ft ops d dd nd,
+  let w := wrun ft ops in
+  get_doc w d = Some dd -> doc_unified (wft w) dd = OK nd ->
+  ~ group_econflict (brecs (dmain dd)) /\ forall k b, In (k, b) (dbundles dd) -> ~ group_econflict (brecs b).
+Proof. exact reachable_doc_unified_no_econflict. Qed.
+Print Assumptions C08_document_returns_no_conflict_any_attribute.
+
+(* ProvBundle.unified() on any container of any reachable world *)
+Theorem C08_bundle_returns_no_conflict : forall ft ops c b nb,
+  let w := wrun ft ops in
+  get_cont w c = Some b -> bundle_unified (wft w) b = OK nb ->
+  ~ group_sconflict (brecs b) /\ ~ group_econflict (brecs b).
+Proof. exact reachable_bundle_unified_no_conflict. Qed.
+Print Assumptions C08_bundle_returns_no_conflict.
+
 (* the hypotheses are met and the conclusion is the first disjunct: three activities under one identifier, the first
    without prov:startTime, the second and third with different ones *)
 Definition ex_late_conflict : list prec :=
